@@ -305,6 +305,88 @@ def genTwinCases (idx : Nat) : Gen (List Case) := do
   pure [ mkCase s!"C15-n{idx}-fwd" "nested-twin/fwd" "good" (mk imps) main cwd1 cwd2 relative,
          mkCase s!"C15-n{idx}-rev" "nested-twin/rev" "good" (mk imps.reverse) main cwd1 cwd2 relative ]
 
+/-! ## routes: one file of a nested module reached several times in one evaluation, by different
+spellings and from different importers (a neighbour inside the nested module, a deeper script of it, a
+script outside it), relative first then module-rooted and the reverse, with few module-rooted imports so
+that whether the nested sentinel gets bundled hinges on each single one of them -/
+
+/-- one importer script: where it sits and how it spells the target -/
+def genImporter (skeleton : Fs) (loc : Path) (name : String) (id : Nat) (targets : List Path) :
+    Gen (Option (Path × Content)) := do
+  let t ← pick targets
+  let wantDot ← chance 1 2
+  let canDot := loc <+: t
+  let root? := findRootC skeleton loc
+  let canRoot := match root? with | some r => r <+: t | none => false
+  if !canDot && !canRoot then return none
+  -- honour the wish when possible, so that both spellings occur for the same target
+  let useDot := if canDot && canRoot then wantDot else canDot
+  let rel := if useDot then t.drop loc.length else t.drop ((root?.getD []).length)
+  let dropExt ← chance 1 2
+  let rel := match rel.reverse with
+    | last :: up => if dropExt && ext last = arraiExt then (last.take (last.length - 6) :: up).reverse else rel
+    | [] => rel
+  let i : Imp := { dot := useDot, raw := '/' :: joinSlash rel, dec := .none }
+  pure (some (loc ++ [comp name], mkScript id [i]))
+
+def genRoutes : Gen (Fs × Path × List Imp) := do
+  let place ← rand 4
+  let base : Path := match place with
+    | 0 => w1 | 1 => w1 ++ [comp "proj"] | 2 => pathOf "/srv/m" | _ => w2
+  let outer ← chance 5 6
+  let nd ← pick [[comp "s"], [comp "u"], [comp "s", comp "t"]]
+  let deeper ← chance 1 4     -- a module nested in the nested module
+  let name ← pick modNames
+  let n := base ++ nd
+  let sentinels : List (Path × String) :=
+    (if outer then [(base, sentinelText name 0)] else []) ++ [(n, sentinelText "nested.org/n" 1)] ++
+    (if deeper then [(n ++ [comp "v"], sentinelText "deep.org/v" 0)] else [])
+  let skeleton : Fs := sentinels.map (fun s => (s.1 ++ [sentinel], mkData s.2 0))
+  -- the same names everywhere, different contents
+  let leaves : Fs :=
+    [ (base ++ [comp "d.arrai"], mkScript 100 []), (base ++ [comp "e.arrai"], mkScript 110 []),
+      (n ++ [comp "d.arrai"], mkScript 101 []), (n ++ [comp "e.arrai"], mkScript 111 [imp false "/d"]),
+      (n ++ [comp "v", comp "d.arrai"], mkScript 102 []), (n ++ [comp "v", comp "e.arrai"], mkScript 112 []) ]
+  let leaves ← (do
+    -- e of the nested module imports /d only half of the time (it is itself a module-rooted import)
+    if ← chance 1 2 then pure leaves
+    else pure (leaves.map (fun f => if f.1 = n ++ [comp "e.arrai"] then (f.1, mkScript 111 []) else f)))
+  let targets : List Path := [n ++ [comp "d.arrai"], n ++ [comp "d.arrai"], n ++ [comp "e.arrai"], n ++ [comp "v", comp "d.arrai"]]
+  let locs : List Path := [base, n, n, n ++ [comp "v"], n ++ [comp "w"]]
+  let k ← (do let x ← rand 3; pure (x + 2))
+  let mut importers : Fs := []
+  for j in [0:k] do
+    let loc ← pick locs
+    match ← genImporter skeleton loc s!"r{j}.arrai" (20 + j) targets with
+    | some f => importers := importers ++ [f]
+    | none => pure ()
+  let mainIn ← pick [base, base, base, n, base ++ [comp "cmd"]]
+  let main := mainIn ++ [comp "main.arrai"]
+  let mainRoot := findRootC skeleton mainIn
+  let mut imps : List Imp := []
+  for f in importers do
+    match ← genSpelling mainIn mainRoot f.1 .none with
+    | some i => imps := imps ++ [i]
+    | none => pure ()
+  -- now and then main reaches a target directly as well
+  if ← chance 1 3 then
+    match ← genSpelling mainIn mainRoot (n ++ [comp "d.arrai"]) .none with
+    | some i => imps := if (← chance 1 2) then i :: imps else imps ++ [i]
+    | none => pure ()
+  pure (leaves ++ importers ++ skeleton, main, imps)
+
+def genRoutesCases (idx : Nat) : Gen (List Case) := do
+  let (fs, main, imps) ← genRoutes
+  let cwdFirst ← chance 1 2
+  let cwd1 := if cwdFirst then w1 else w2
+  let cwd2 := if cwdFirst then w2 else w1
+  let mk (is : List Imp) : Fs := (main, mkScript 0 is) :: fs
+  -- both orders, each with the main script given absolutely and relatively
+  pure [ mkCase s!"C15-r{idx}-fwd-abs" "routes/fwd/abs" "good" (mk imps) main cwd1 cwd2 false,
+         mkCase s!"C15-r{idx}-rev-abs" "routes/rev/abs" "good" (mk imps.reverse) main cwd1 cwd2 false,
+         mkCase s!"C15-r{idx}-fwd-rel" "routes/fwd/rel" "good" (mk imps) main cwd1 cwd2 true,
+         mkCase s!"C15-r{idx}-rev-rel" "routes/rev/rel" "good" (mk imps.reverse) main cwd1 cwd2 true ]
+
 /-! ## corpus -/
 
 def corpus : List Case :=
@@ -349,6 +431,11 @@ def gen (seed n : Nat) (_thorough : Bool) : List Case := Id.run do
   -- nested-module layouts, each with its imports in both orders
   for i in [0:n / 6] do
     let (cs, _) := (genTwinCases i).run (seedOf seed (1570000 + i))
+    for c in cs do
+      out := c :: out
+  -- one nested file by several routes and spellings; both orders, absolute and relative main
+  for i in [0:n / 10] do
+    let (cs, _) := (genRoutesCases i).run (seedOf seed (1580000 + i))
     for c in cs do
       out := c :: out
   pure out.reverse
